@@ -57,6 +57,12 @@ def dynamic_census(ctx, chk, rule):
         for n in walk_no_nested_defs(f.node):
             if isinstance(n, ast.Call) and call_name(n) == "getattr" and len(n.args) == 2 and _value_only_use(n):
                 continue      # a field read whose value only enters arithmetic / comparisons: no call target and no alias is hidden
+            if isinstance(n, ast.Call) and call_name(n) in ("getattr", "setattr") and len(n.args) >= 2:
+                from ..loader import possible_strings
+                names = possible_strings(ctx.prog, f, n.args[1])
+                protected = {"rewards", "players", "transition_list", "final_states", "num_states", "next_states", "state_list"} | {shared.solver_names(ctx)["flag_field"]}
+                if names is not None and not (names & protected):
+                    continue      # the attribute names are a known finite set of value fields (e.g. the three reward quantities of a node)
             if isinstance(n, ast.Call) and call_name(n) in ("getattr", "setattr", "eval", "exec", "globals", "locals", "vars", "__import__", "delattr"):
                 bad += 1
                 chk.undecided(rule, f.where(n), "dynamic access `%s` defeats static resolution" % src(n))
